@@ -66,8 +66,13 @@ def flags_for(unit, repo=None):
     repo = repo or REPO
     rd = resource_dir()
     if unit.endswith(".c"):
-        return ["-std=gnu99", "-I" + os.path.join(repo, "kerl"), "-I" + repo, "-UNDEBUG", "-w",
-                "-resource-dir", rd]
+        # the real build compiles kerl.c with DEFS = -DHAVE_CONFIG_H (kerl.h includes the config header, which selects the
+        # readline / history code paths)
+        fl = ["-std=gnu99", "-DHAVE_CONFIG_H", "-I" + os.path.join(repo, "kerl"), "-I" + repo, "-I" + os.path.join(repo, "config"),
+              "-UNDEBUG", "-w", "-resource-dir", rd]
+        if not os.path.exists(os.path.join(repo, "config", "bitcoin-config.h")):
+            fl.insert(4, "-I" + os.path.join(BUILD, "genconfig"))
+        return fl
     fl = ["-std=gnu++17", "-DHAVE_CONFIG_H", "-I" + repo, "-I" + os.path.join(repo, "config"),
           "-I" + os.path.join(repo, "secp256k1/include"), "-UNDEBUG", "-w", "-resource-dir", rd]
     if not os.path.exists(os.path.join(repo, "config", "bitcoin-config.h")):
@@ -96,6 +101,8 @@ def tree_hash(repo=None):
         h.update(b"\0")
     with open(os.path.join(VERIF, "tools/extract/extract.cc"), "rb") as fh:
         h.update(fh.read())
+    # the flags the units are parsed with are part of what was analysed
+    h.update(repr([x.replace(repo, "$R") for x in flags_for("u.c", repo) + flags_for("u.cpp", repo)]).encode())
     return h.hexdigest()[:24]
 
 
